@@ -4,7 +4,7 @@ from ..rt import check
 STREAMS = ["lifecycle"]
 REGENERATE_SRC = True
 RULE = ("histories over 2..4 ServiceRunner instances: accept, a concurrent accept from another thread, then shutdown() "
-        "from an outside thread or from a thread payload / SIGINT / a failing payload (Exception, SystemExit, another BaseException, a KeyboardInterrupt raised by the payload), shutdown() in the very instant the runner reports running (the worker holds the reporting thread up right after it set the flag), then accept on the next runner; a "
+        "from an outside thread, from two or three threads at once, or from a thread payload / SIGINT / a failing payload (Exception, SystemExit, another BaseException, a KeyboardInterrupt raised by the payload), shutdown() in the very instant the runner reports running (the worker holds the reporting thread up right after it set the flag), then accept on the next runner; a "
         "concurrent accept on the active instance itself right after shutdown() was called (polling period 0.2 s); shutdown() "
         "again, from one or two threads, on a runner whose run has ended; "
         "payload populations at that moment: none, sleeping coroutines, blocked threads; the moment is swept across the "
@@ -29,15 +29,23 @@ def oracle(sc, out):
         if end is None:
             res.append(("never-ends:%s" % run["end"], "runner %d: accept() did not end after %s" % (rid, run["end"])))
             break
-        if run["end"] in ("shutdown", "shutdown-thread-payload", "shutdown-adopters", "sigint") and end["result"] != "returned":
+        if run["end"] in ("shutdown", "shutdown-twice", "shutdown-thread-payload", "shutdown-adopters", "sigint") and end["result"] != "returned":
             res.append(("graceful-stop-raised:%s" % run["end"], "runner %d: after %s accept() ended with %s" % (rid, run["end"], end["result"])))
         # (failure-base: SystemExit / another BaseException / KeyboardInterrupt from a payload - the run ends,
         # how is C01's and C13's business; what matters here is that the next runner can accept)
         if run["end"] == "failure" and end["result"] != "RuntimeError":
             res.append(("failure-not-raised", "runner %d: a failing payload ended accept() with %s" % (rid, end["result"])))
-        if run["end"] in ("shutdown", "shutdown-thread-payload", "shutdown-adopters"):
+        if run["end"] in ("shutdown", "shutdown-twice", "shutdown-thread-payload", "shutdown-adopters"):
             if not any(e["kind"] == "shutdown-return" and e.get("rid") == rid for e in log):
                 res.append(("shutdown-hangs", "runner %d: shutdown() did not return" % rid))
+        # every shutdown() call made while the runner was running returns - also when several threads call it at once
+        calls_run = [e for e in log if e["kind"] == "shutdown-call" and e.get("rid") == rid and begin["seq"] < e["seq"] < end["seq"]]
+        errs_run = [e for e in log if e["kind"] == "controller-error" and e.get("step") == "shutdown" and begin["seq"] < e["seq"] and (
+            not [x for x in log if x["kind"] == "after-begin" and x.get("rid") == rid] or e["seq"] < [x for x in log if x["kind"] == "after-begin" and x.get("rid") == rid][0]["seq"])]
+        nxt = next((e for e in log if e["kind"] == "accept-begin" and not e.get("concurrent") and e["seq"] > end["seq"]), None)
+        errs_run = [e for e in errs_run if nxt is None or e["seq"] < nxt["seq"]]
+        if calls_run and errs_run:
+            res.append(("shutdown-raises:%s" % errs_run[0].get("etype"), "runner %d: one of %d shutdown() calls raised %s: %s" % (rid, len(calls_run), errs_run[0].get("etype"), errs_run[0].get("msg"))))
         # shutdown() on a runner that has ended returns as well (nothing is left to stop)
         late = [e for e in log if e["kind"] == "after-begin" and e.get("rid") == rid]
         if late:
